@@ -266,6 +266,9 @@ def gen_proc(ctx: Ctx, kinds, types, depth=0, kind=None, self_arg: Var = None, m
             rname = p.name
         p.result = Var(rname, ts, role="result")
         p.ret_on_prefix = rng.random() < 0.4 and ts.base not in ("class",)
+        if p.ret_on_prefix and rng.random() < 0.35 and "elemental" not in p.prefixes and "pure" not in p.prefixes:
+            # the result is typed in the prefix; a further attribute can only come from a separate statement
+            p.result.attrs = [rng.choice(["pointer", "allocatable", "target"])]
         if not p.ret_on_prefix:
             if rng.random() < 0.3 and "elemental" not in p.prefixes:
                 p.result.dim = "(3)"
